@@ -45,6 +45,21 @@ int main(void)
 				printf("> %s - -", kstatus_name(st));
 			if (alloc_live != live0) printf(" LEAK=%ld", alloc_live - live0);
 			printf("%s\n", c16_monitor(ctx, st));
+		} else if (sscanf(line, "strf %u %" SCNu64 " %u", &as, &addr, &ps) == 3) {
+			/* string read with the ps-th allocation of the call failing (environment fault, not modelled) */
+			char *s = NULL;
+			long live0 = alloc_live; unsigned long nf;
+			kdump_status st;
+			alloc_reset(); alloc_failed = 0; alloc_fail_at = ps;
+			st = kdump_read_string(ctx, as, addr, &s);
+			nf = alloc_failed; alloc_reset();
+			if (st == KDUMP_OK) {
+				printf("> ok %zu %" PRIu64, strlen(s), fnv((unsigned char *)s, strlen(s)));
+				__wrap_free(s);
+			} else
+				printf("> %s - -", kstatus_name(st));
+			if (alloc_live != live0) printf(" LEAK=%ld", alloc_live - live0);
+			printf(" FAILED=%lu\n", nf);
 		} else if (sscanf(line, "kphys_off %" SCNu64, &addr) == 1) {
 			/* install KPHYSADDR -> MACHPHYSADDR = addr + off (a non-identity translation) */
 			addrxlat_ctx_t *ax; addrxlat_sys_t *sys; addrxlat_meth_t m; addrxlat_map_t *map;
